@@ -265,6 +265,10 @@ class ClientProbe(BaseComponent):
         hdrs = sorted((k.lower(), v) for k, v in res.headers.items())
         self.log.append(['response', res.status, list(res.version), [list(h) for h in hdrs], l1(res.body.getvalue())])
 
+    @handler('exception', channel='*')
+    def _on_exception(self, *args, **kw):
+        pass    # exceptions in the read handler are observed through the parser double; keep stderr quiet
+
 
 def drain(m):
     for _ in range(2000):
